@@ -42,6 +42,9 @@ LEAVES = [
     ("domain_opt", ("optdom", "A", ("val", 1), ("term", ("opt", "DOM", ("val", [1, 3])))), "h", [("A", [ABSENT, 1, 3]), ("DOM", [ABSENT, [1], [1, 3]])]),
 ]
 LEAF_BY_NAME = {l[0]: l for l in LEAVES}
+# quick tiers of the three most expensive checks use these leaves at nesting depth 2 (all leaves at depth
+# <= 1; thorough tiers use all leaves everywhere)
+QUICK2_LEAVES = ["opt", "dotted", "section", "tmpldef", "chain", "dsdef", "tmplval", "tmplval2", "tmplval_list", "tmpl", "all", "domain", "domain_opt"]
 
 # leaves whose handling is a known, recorded defect of the unchanged tree can be
 # excluded by name from a check's alphabet (see known_findings.json)
